@@ -55,6 +55,7 @@ struct UndoWorld : World {
         else if (op.kind == OP_CLOCK) { for (int64_t c : {1000, 2000, 3000}) if (op.a[0] > c) { Op o = op; o.a[0] = c; v.push_back(o); } }
         return v;
     }
+    bool merge(const Op &a, const Op &b, Op &out) const override { if (a.kind == OP_CLOCK && b.kind == OP_CLOCK) { out = a; out.a[0] = a.a[0] + b.a[0]; return true; } return false; }
     void gen(const std::string &, Rng &kr, Rng &pr, Knobs &k, Plan &p) override {
         k.assign(K_N, 0);
         k[K_EPOCH] = kr.pick(std::vector<int64_t>{0, 1000000000LL, 2147483638LL, 1700000000LL});
